@@ -378,6 +378,41 @@ func c07Run(env *fw.Env, raw json.RawMessage) fw.Outcome {
 			}
 		}
 	}
+	// U2 for a recalled line: when the last history move of the script arrives on an entry that
+	// this call had not visited before, that entry's stored text is the initial content of the
+	// line edited from then on, and the tail of undos must end there.
+	if c.Walk && !diverged && c.Mode == "emacs" {
+		pos, lastMove := 0, -1
+		visited := map[int]int{0: 1}
+		for i, st := range plan[:nOps] {
+			switch st.Tag {
+			case "histup":
+				if pos < len(c.Hist) {
+					pos++
+					visited[pos]++
+					lastMove = i
+				}
+			case "histdown":
+				if pos > 0 {
+					pos--
+					visited[pos]++
+					lastMove = i
+				}
+			}
+		}
+		if lastMove >= 0 && pos >= 1 && visited[pos] == 1 {
+			want := c.Hist[len(c.Hist)-pos]
+			arrived, ok1 := bufAfter(lastMove)
+			bEnd, ok2 := bufAfter(len(plan) - 1)
+			if ok1 && ok2 && arrived == want {
+				o.O.Events++
+				o.Add("u2_judged_on_a_recalled_line", 1)
+				if bEnd != want {
+					o.Viol("repeated-undo-does-not-reach-the-initial-content|recalled-line|"+c.Mode+"|"+lenClass, ctx+fmt.Sprintf(" the last history move (step %d) arrived on the entry %q, first visit in this call; after %d more undos the buffer is %q", lastMove, want, tail, bEnd))
+				}
+			}
+		}
+	}
 	// U2
 	if !c.Walk && !diverged {
 		if bEnd, ok := bufAfter(len(plan) - 1); ok {
